@@ -84,9 +84,9 @@ class VirtualLoop(asyncio.SelectorEventLoop):
 # wall clock shim for han.meter_connection (datetime.datetime.utcnow) -> virtual clock
 
 
-def install_clock_shim(mc, loop):
+def install_clock_shim(mc, loop, epoch=None):
     """Make the manager's wall clock follow loop.time(). Returns a restore() function and the mode used."""
-    epoch = _real_dt.datetime(2021, 1, 1, 0, 0, 0)
+    epoch = epoch or _real_dt.datetime(2021, 1, 1, 0, 0, 0)
 
     class VDateTime(_real_dt.datetime):
         @classmethod
@@ -157,6 +157,32 @@ class FakeTransport(asyncio.BaseTransport):
             self.world.event("transport_lost", self.idx)
             self._report_lost(ConnectionResetError("connection lost"))
 
+    def eof(self, gap):
+        """The peer half-closes: eof_received() first; connection_lost() follows only `gap` later (gap < 0: that many loop iterations)."""
+        if self.closed:
+            return
+        self.world.event("transport_eof", self.idx)
+        keep_open = self.protocol.eof_received()
+        if keep_open:
+            return
+        self.closed = True  # closing: is_closing() is true, but the connection has not ended before connection_lost()
+        self.closed_at = self.world.loop.time()
+
+        def lost():
+            self.world.event("transport_lost", self.idx)
+            self._report_lost(None)
+
+        if gap >= 0:
+            self.world.loop.call_later(gap, lost)
+        else:
+            def hop(n):
+                if n <= 0:
+                    lost()
+                else:
+                    self.world.loop.call_soon(hop, n - 1)
+
+            hop(int(-gap))
+
     def get_extra_info(self, name, default=None):
         return ("fake-host", 1000 + self.idx) if name == "peername" else default
 
@@ -186,7 +212,7 @@ class World:
 
     async def factory(self):
         n = len(self.attempts)
-        outcome, latency, lifetime = (self.step_for(n) + (None,))[:3]
+        outcome, latency, lifetime, lossmode = (self.step_for(n) + (None, None))[:4]
         rec = {"start": self.loop.time(), "end": None, "outcome": None, "transport": None, "n": n}
         self.attempts.append(rec)
         self.event("attempt_start", n)
@@ -216,11 +242,14 @@ class World:
         if lifetime is not None:
             if lifetime < 0:  # negative lifetime: lost after |lifetime| seconds AND close() on the dead transport raises
                 tr.close_raises = True
-            self.loop.call_later(abs(lifetime), tr.lose)
+            if lossmode is None:
+                self.loop.call_later(abs(lifetime), tr.lose)
+            else:  # "eof:<gap>": half-close, eof_received() first and connection_lost() only <gap> later
+                self.loop.call_later(abs(lifetime), tr.eof, float(str(lossmode).partition(":")[2] or 0.05))
         return tr, protocol
 
 
-def run_scenario(script, *, close_at_iteration=None, close_at_time=None, horizon=400.0, drain=200.0, configure=None, sample_tasks=True, use_shim=True, bystander_close_at=None):
+def run_scenario(script, *, close_at_iteration=None, close_at_time=None, horizon=400.0, drain=200.0, configure=None, sample_tasks=True, use_shim=True, bystander_close_at=None, epoch=None, tz=None):
     """Run ConnectionManager.connect_loop() on a fresh virtual loop.
 
     close() is injected either before loop iteration `close_at_iteration` or at virtual time `close_at_time`.
@@ -232,10 +261,19 @@ def run_scenario(script, *, close_at_iteration=None, close_at_time=None, horizon
 
     loop = VirtualLoop()
     asyncio.set_event_loop(loop)
-    restore, shim_mode = install_clock_shim(mc, loop) if use_shim else ((lambda: None), "off")
+    restore, shim_mode = install_clock_shim(mc, loop, epoch) if use_shim else ((lambda: None), "off")
     from vlib import fakeclock
 
-    fclock = fakeclock.FakeClock(start=1_609_459_200.0, source=loop.time)  # time.time()/monotonic() follow the virtual loop as well
+    old_tz = None
+    if tz is not None:  # the process's local time zone (a POSIX TZ rule): pacing must not depend on it
+        import os
+        import time as _time
+
+        old_tz = os.environ.get("TZ", "")
+        os.environ["TZ"] = tz
+        _time.tzset()
+    start = 1_609_459_200.0 if epoch is None else epoch.replace(tzinfo=_real_dt.timezone.utc).timestamp()
+    fclock = fakeclock.FakeClock(start=start, source=loop.time)  # time.time()/monotonic() follow the virtual loop as well
     fclock.__enter__()
     world = World(loop, script, mc)
     out = {"world": world, "closed_at": None, "closed_iteration": None, "loop_done_at": None, "loop_exc": None, "quiescent": False, "shim": shim_mode}
@@ -299,6 +337,15 @@ def run_scenario(script, *, close_at_iteration=None, close_at_time=None, horizon
     finally:
         restore()
         fclock.__exit__(None, None, None)
+        if old_tz is not None:
+            import os
+            import time as _time
+
+            if old_tz:
+                os.environ["TZ"] = old_tz
+            else:
+                os.environ.pop("TZ", None)
+            _time.tzset()
         # cancel whatever is left so nothing outlives the case
         try:
             pending = [t for t in asyncio.all_tasks(loop) if not t.done()]
